@@ -111,6 +111,20 @@ pub fn reset_thread_state() {
     set_retry_script(vec![]);
 }
 
+/// The calling logical thread is blocked on something another logical thread has to release.
+/// Without a scheduler (single-threaded engines) nobody else can release it: that is a
+/// self-deadlock of the code under test and is reported like an exhausted budget.
+pub fn blocked() {
+    let ctx = CTX.with(|c| c.borrow().clone());
+    match ctx {
+        Some((s, me)) => s.force_switch(me),
+        None => {
+            clear_budget();
+            std::panic::panic_any(BudgetExhausted);
+        }
+    }
+}
+
 /// one yield point
 pub fn step(_kind: &'static str) {
     let used = USED.with(|c| {
@@ -182,6 +196,25 @@ impl Sched {
         debug_assert_eq!(st.current, me);
         let next = Self::choose(&mut st, Some(me)).unwrap_or(me);
         if next != me {
+            st.counters.switches += 1;
+            st.current = next;
+            self.cv.notify_all();
+            while st.current != me && !st.aborted {
+                st = self.cv.wait(st).unwrap();
+            }
+        }
+    }
+
+    /// A logical thread cannot proceed (it waits for a lock another logical thread holds):
+    /// hand the baton to the next runnable thread other than `me`, whatever the schedule says.
+    fn force_switch(&self, me: usize) {
+        let mut st = self.st.lock().unwrap();
+        if st.aborted {
+            return;
+        }
+        let n = st.runnable.len();
+        let next = (1..n).map(|d| (me + d) % n).find(|i| st.runnable[*i]);
+        if let Some(next) = next {
             st.counters.switches += 1;
             st.current = next;
             self.cv.notify_all();
@@ -403,6 +436,9 @@ pub mod sync {
                     return Ok(MutexGuard { m: self });
                 }
                 super::local_counters(|c| c.lock_contended += 1);
+                // let the holder run (a waiting thread does not use up its own step budget
+                // faster than one step per hand-over)
+                super::blocked();
             }
         }
     }
